@@ -175,7 +175,7 @@ struct Sim {
       case OP_TM_ASSIGN: case OP_TM_ASSIGN_EIGEN: case OP_TM_COEFFWRITE: case OP_TM_SETZERO: case OP_TM_STREAM:
       case OP_T_NEG: case OP_DATAPTR: case OP_HAT: case OP_ZERO: case OP_GENERATOR: case OP_T_GENERATOR_M:
       case OP_M_SETTERS: case OP_TM_BLOCKSET: case OP_T_ACCESSORS: case OP_CONSTRUCT: case OP_STREAM: case OP_T_STREAM:
-      case OP_TM_MOVE_ASSIGN:
+      case OP_TM_MOVE_ASSIGN: case OP_T_DATAPTR: case OP_T_CONSTRUCT:
         return T_EXACT;
       case OP_INTERP_SLERP: case OP_INTERP_CUBIC: case OP_INTERP_SMOOTH: case OP_AVG_BIINV: case OP_AVG: case OP_AVG_FL:
       case OP_AVG_FR: case OP_DECASTELJAU:
@@ -273,7 +273,7 @@ struct Sim {
                std::to_string((int)op.ka) + "," + std::to_string((int)op.kb) + "): a result bound to a const reference changed while other objects were used", idx);
       return false;
     }
-    if (op.op == OP_DATAPTR && v.status == 0 && (v.v[0] != 1.0 || v.v[1] != 1.0 || v.v[2] != 1.0)) {
+    if ((op.op == OP_DATAPTR || op.op == OP_T_DATAPTR) && v.status == 0 && (v.v[0] != 1.0 || v.v[1] != 1.0 || v.v[2] != 1.0)) {
       res.fail("data_pointer", cls("data_pointer", op.op), std::string("view does not alias the user buffer in place (data()==buffer: ") + (v.v[0] == 1.0 ? "yes" : "NO") +
                ", sub-view offsets: " + (v.v[1] == 1.0 ? "ok" : "WRONG") + ", copy of the view views the same buffer: " + (v.v[2] == 1.0 ? "yes" : "NO") + ")", idx);
       return false;
